@@ -342,9 +342,8 @@ func c10Judge(p c10Params, w *world.World, e *vrt.Exec, o *c10Obs) (string, stri
 		if code, _, _ := notifs[0].Notif(); code != 6 || len(notifs) > 1 {
 			return "wrong-shutdown-notification", fmt.Sprintf("%s carries %v at shutdown", c, notifs)
 		}
-		if ms[len(ms)-1].Type != wire.TypeNotification {
-			return "bytes-after-cease", fmt.Sprintf("%s: corebgp wrote %s after the Cease", c, ms[len(ms)-1])
-		}
+		// (a WriteUpdate caller that passed its closed-check just before the Cease may still
+		// write a complete UPDATE after it; the property does not forbid that)
 	}
 	return monitorCallbacks(w)
 }
